@@ -1,16 +1,26 @@
 (** Property C19 — thread-safe iterators stay valid and complete under concurrent updates.
 
-    STATUS.  The iterator objects themselves (IterableList::iterator, FeldmanHashSet::iterator_base::forward/backward,
-    erase_at) are NOT modelled at step grain: the four theorems planned in DESIGN 7 (iter_current_not_disposed,
-    iterlist_iter_complete_ordered, feldman_iter_complete_at_least_once, erase_at_exact) are not stated here as Coq
-    propositions because there is no iterator model to state them about.  They are checked on the real code only, by the
-    log-based monitor of checks/C19.py (which found three defects of the iterators, all fixed in /repo and kept as corpus
-    regressions).
+    STATUS.
+    Modelled at step grain and tied to the real code by step correspondence (checks/C19.py, harness/C19/step_feldman_iter.cpp):
+    the iterator object of FeldmanHashSet<HP> - LV.Model.FeldmanIter on top of LV.Model.Feldman: guard, ( node, idx ),
+    forward() / backward() as in the current tree (re-read of a converting slot, re-read of a slot that changed under
+    protect), operator*, do_erase_at with the unlink fall-back.  IterableList::iterator is NOT modelled.
 
-    What IS proved, for every schedule, about the step-grain model of FeldmanHashSet<HP> (LV.Model.Feldman, tied to the
-    real code by step correspondence) are the two structural facts the Feldman iterators and erase_at rely on. *)
+    Proved here, for every state that satisfies the structural invariant of the Feldman model (= every reachable
+    state of LV.Model.Feldman, every schedule):
+      (1) an element occupies at most one slot                                     [C19_feldman_element_position_unique]
+      (2) no access of an array-node expansion hides an element                    [C19_feldman_expand_never_hides_element]
+      (3) the CAS of do_erase_at removes exactly the iterator's element             [C19_feldman_erase_at_true_exact]
+      (4) do_erase_at's [return false] branch: the element is already gone          [C19_feldman_erase_at_false_gone]
+    NOT proved (kept below as [_statement] definitions): that the iterator programs preserve the invariant
+    ([feldman_iter_inv_statement]: the descent stack of the iterator needs ghost knowledge per stack entry, i.e. a new
+    auxiliary layer over FeldmanStepInv as was built for linearizability in FeldmanLinInv/FeldmanLinSafe), the
+    trace-level completeness theorem [feldman_iter_complete_at_least_once_statement] and the trace-level form of
+    erase_at exactness (not stated, see below).  These, the never-disposed property and everything about
+    IterableList are checked on the real code only, by the log-based monitor of checks/C19.py (which found three
+    defects of the iterators, all fixed in /repo and kept as corpus regressions). *)
 From Coq Require Import ZArith NArith List.
-From LV Require Import Base.Conc Base.Events Model.Feldman Proofs.FeldmanStepInv Proofs.FeldmanStepSafe Proofs.FeldmanStepThm.
+From LV Require Import Base.Conc Base.Events Model.Feldman Model.FeldmanIter Proofs.FeldmanStepInv Proofs.FeldmanStepSafe Proofs.FeldmanStepThm Proofs.FeldmanIterThm.
 Import ListNotations.
 
 (** (1) an element occupies at most one slot of the tree, in every reachable configuration: the iterator's pair
@@ -51,4 +61,79 @@ Example C19_feldman_nonvacuous :
   let c := fst (Conc.run 2000 0 [0;1;0;1;1;0]%nat
                  (Feldman.init_cfg 4 2 32 [5; 21; 37; 2]%N 50 [[[1;0];[1;2]]; [[1;1];[7;0]]]%Z)) in
   narr (Conc.shared c) = 2 /\ arr (Conc.shared c) 0 5 = mkSlot 1 2 /\ arr (Conc.shared c) 1 1 = mkSlot 2 0.
+Proof. vm_compute. repeat split. Qed.
+
+(** (3) do_erase_at, [true] branch.  The iterator is at ( a, i ) on a linked array node and holds element [x] in its guard;
+    the slot still holds [x] unflagged, so the CAS ( x -> nullptr ) succeeds ([erase_at_cas_step]).  Afterwards every
+    other position has its old content, [x] is at no position, and exactly the hash of [x] has left the set. *)
+Theorem C19_feldman_erase_at_true_exact :
+  forall (hbits abits : nat) (hs : list N), 0 < hbits -> 0 < abits ->
+  forall g A tr a i x, FeldmanStepInv.Inv hbits abits hs g A tr -> reach_arr g a -> arr g a i = mkSlot x 0 -> x <> 0 ->
+    fst (fst (a_cas a i (mkSlot x 0) snull g)) = erase_at_state g a i /\
+    (forall a' i' y, data_at (erase_at_state g a i) a' i' y <-> (data_at g a' i' y /\ (a', i') <> (a, i))) /\
+    (forall a' i', ~ data_at (erase_at_state g a i) a' i' x) /\
+    (forall h, present hs (erase_at_state g a i) h <-> (present hs g h /\ h <> Feldman.hash hs (ikey g x))).
+Proof.
+  intros hbits abits hs Hh Ha g A tr a i x HI Hr Hs Hx. split.
+  - apply (erase_at_cas_step g a i x Hs).
+  - exact (erase_at_true_exact hbits abits hs Hh Ha g A tr a i x HI Hr Hs Hx).
+Qed.
+Print Assumptions C19_feldman_erase_at_true_exact.
+
+(** (4) do_erase_at, [false] branch: the slot ( a, i ) - a linked array node on the hash path of the iterator's element
+    [x] - holds an unflagged value other than [x] (nullptr or another element).  Then [x] is at no position of the tree:
+    it has been removed or replaced, as the documentation of erase_at promises.  (A flagged slot takes the unlink branch.) *)
+Theorem C19_feldman_erase_at_false_gone :
+  forall (hbits abits : nat) (hs : list N), 0 < hbits -> 0 < abits ->
+  forall g A tr a o i x y, FeldmanStepInv.Inv hbits abits hs g A tr ->
+    pfx A a = Some (o, (Feldman.hash hs (ikey g x) mod 2 ^ N.of_nat o)%N) ->
+    i = Feldman.cut (Feldman.hash hs (ikey g x)) o (Feldman.bits_of hbits abits a) ->
+    arr g a i = mkSlot y 0 -> y <> x ->
+    forall a' i', ~ data_at g a' i' x.
+Proof. intros hbits abits hs Hh Ha g A tr a o i x y. apply (erase_at_false_gone hbits abits hs Hh Ha). Qed.
+Print Assumptions C19_feldman_erase_at_false_gone.
+
+(** ** the statements that are NOT proved *)
+
+(** the programs of the iterator model preserve the structural invariant (for LV.Model.Feldman alone this is
+    [FeldmanStepSafe.feldman_inv_reach]) *)
+Definition feldman_iter_inv_statement : Prop :=
+  forall (hbits abits W : nat) (hs : list N), 0 < hbits -> 0 < abits ->
+  forall (fuel : nat) (ths : list (list (list Z))) c,
+    Conc.reach (FeldmanIter.init_cfgI hbits abits W hs fuel ths) c ->
+    exists A, FeldmanStepInv.Inv hbits abits hs (Conc.shared c) A (Conc.trace c).
+
+(** one complete iteration of thread [t] (operation 20 forward / 21 reverse, no erase_at: k = 99) between the
+    configurations [c1] and [c2]: every element that is in the tree in every configuration in between is visited *)
+Definition feldman_iter_complete_at_least_once_statement : Prop :=
+  forall (hbits abits W : nat) (hs : list N), 0 < hbits -> 0 < abits ->
+  forall (fuel : nat) (ths : list (list (list Z))) c1 c2 t code mid,
+    Conc.reach (FeldmanIter.init_cfgI hbits abits W hs fuel ths) c1 -> Conc.reach c1 c2 ->
+    (code = 20 \/ code = 21) ->
+    Conc.trace c2 = Conc.trace c1 ++ [(t, Feldman.ev_inv code 99)] ++ mid ++ [(t, Feldman.ev_ret true false)] ->
+    (forall e, In (t, e) mid -> e <> Feldman.ev_inv code 99) ->
+    forall x, x <> 0 ->
+      (forall c', Conc.reach c1 c' -> Conc.reach c' c2 -> exists a i, data_at (Conc.shared c') a i x) ->
+      In (t, FeldmanIter.ev_visit (ikey (Conc.shared c2) x)) mid.
+
+(** The trace-level form of erase_at exactness ("erase_at( it ) == true iff this call is the one and only removal of that
+    element, false only if another operation removed or replaced it") is NOT stated as a Coq proposition: the identity
+    of the element held by the iterator's guard is not visible in the model's trace (events carry keys, not element
+    ids), so the statement needs the ghost state of the missing auxiliary layer.  Its two state-level halves are (3) and
+    (4) above; on the real code it is checked by the monitor of checks/C19.py. *)
+
+(** non-vacuity of the iterator model: thread 0 inserts keys 0 and 3 and iterates forward, erasing key 0 through
+    erase_at; thread 1 inserts key 1, whose hash shares the head slot of key 0.  Schedule: thread 0 is stopped after
+    operator* on the element with key 0, thread 1 expands the slot, then do_erase_at finds the slot flagged and removes
+    the element through the unlink fall-back: both elements visited, erase_at answers true, the element is gone from the
+    new array node, key 1 is in it. *)
+Example C19_feldman_iter_nonvacuous :
+  let c := fst (Conc.run 4000 0 (repeat 0 41 ++ repeat 1 80 ++ repeat 0 200)%nat
+                 (FeldmanIter.init_cfgI 4 2 32 [5; 21; 37; 2]%N 60 [[[1;0];[1;3];[20;0]]; [[1;1]]]%Z)) in
+  filter (fun te => match snd te with EvCli _ _ => true | _ => false end) (Conc.trace c) =
+    [(0, Feldman.ev_inv 1 0); (0, Feldman.ev_ret true false); (0, Feldman.ev_inv 1 3); (0, Feldman.ev_ret true false);
+     (0, Feldman.ev_inv 20 0); (0, FeldmanIter.ev_visit 3); (0, FeldmanIter.ev_visit 0);
+     (1, Feldman.ev_inv 1 1); (1, Feldman.ev_ret true false);
+     (0, FeldmanIter.ev_erased true); (0, Feldman.ev_ret true false)] /\
+  arr (Conc.shared c) 0 5 = mkSlot 1 2 /\ arr (Conc.shared c) 1 1 = mkSlot 3 0 /\ arr (Conc.shared c) 1 0 = snull.
 Proof. vm_compute. repeat split. Qed.
